@@ -182,33 +182,20 @@ harness! {
     #[kani::stub(alloc::fmt::format, crate::stubs::fmt_stub)]
     #[kani::stub(libm::atan2, crate::stubs::k::atan2_stub)]
     #[kani::stub(rs1090::decode::flarm::btea, btea_identity)]
-    /// field extraction and position reconstruction for EVERY plaintext block, address,
-    /// timestamp, finite reference on the globe and true position inside the decodable window
-    /// (under Kani the cipher is the identity; natively the words are encrypted by the
-    /// independent XXTEA encryptor and decrypted by the real code)
-    fn fields(s) {
+    /// discrete fields for EVERY plaintext block, address, timestamp and address kind (reference
+    /// fixed): address, kind, type, flags, GPS status, altitude equal the packer's bit slices
+    /// (under Kani the cipher is the identity; natively the block is encrypted by the independent
+    /// XXTEA encryptor and decrypted by the real code)
+    fn fields_discrete(s) {
         let words: [u32; 5] = [s.u32(), s.u32(), s.u32(), s.u32(), s.u32()];
         let ts = s.u32();
         let addr = s.u32();
         let icao_kind = s.bool();
         let tail: [u8; 2] = s.bytes();
-        let ref_lat = s.f64();
-        let ref_lon = s.f64();
-        let t_lat = s.u32() as i32; // true position, 1e-7 degree units
-        let t_lon = s.u32() as i32;
         vassume!(addr < (1 << 24));
-        vassume!(ref_lat >= -90.0 && ref_lat <= 90.0 && ref_lon >= -180.0 && ref_lon <= 180.0);
-        // the packer: 19 (20) low bits of the position in 128e-7-degree units
-        vassume!(words[1] & 0x7ffff == ((t_lat >> 7) as u32) & 0x7ffff);
-        vassume!(words[2] & 0xfffff == ((t_lon >> 7) as u32) & 0xfffff);
-        // true position inside the unambiguous window around the reference (with a margin of one unit)
-        let rl = (ref_lat * 1e7) as i64;
-        let rg = (ref_lon * 1e7) as i64;
-        vassume!(((t_lat as i64) - rl).abs() < (0x40000 - 2) * 128);
-        vassume!(((t_lon as i64) - rg).abs() < (0x80000 - 2) * 128);
         let magic = if icao_kind { 0x10 } else { 0x20 };
         let msg = packet(addr, magic, &cipher_words(&words, ts, addr), tail);
-        let r = Flarm::from_record(ts, &[ref_lat, ref_lon], &msg[..]);
+        let r = Flarm::from_record(ts, &[45.0, 5.0], &msg[..]);
         vcover!(r.is_ok());
         vassert!(r.is_ok(), "well-formed packet decodes");
         if let Ok(f) = &r {
@@ -221,15 +208,52 @@ harness! {
             vassert!(f.stealth == ((words[0] >> 13) & 1 == 1) && f.no_track == ((words[0] >> 14) & 1 == 1), "stealth / no-track flags");
             vassert!(f.gps == (words[0] >> 16) & 0xfff, "GPS status");
             vassert!(f.geoaltitude == (words[1] >> 19) & 0x1fff, "altitude (m)");
-            let dlat = f.latitude * 1e7 - t_lat as f64;
-            let dlon = f.longitude * 1e7 - t_lon as f64;
-            vassert!(dlat >= -129.0 && dlat <= 129.0, "latitude within one quantisation step of the true position");
-            vassert!(dlon >= -129.0 && dlon <= 129.0, "longitude within one quantisation step of the true position");
             finite_and_track(f);
         }
         core::mem::forget(r);
     }
 }
+
+macro_rules! position {
+    ($name:ident, $lon:expr) => {
+        harness! {
+            #[kani::unwind(30)]
+            #[kani::stub(alloc::fmt::format, crate::stubs::fmt_stub)]
+            #[kani::stub(libm::atan2, crate::stubs::k::atan2_stub)]
+            #[kani::stub(rs1090::decode::flarm::btea, btea_identity)]
+            /// position reconstruction of one coordinate: every finite reference on the globe, every
+            /// true position inside the decodable window around it, every value of the other bits of
+            /// the word that carries it: decoded within one quantisation step (128e-7 deg) of the truth
+            fn $name(s) {
+                let w = s.u32();
+                let reference = s.f64();
+                let truth = s.u32() as i32; // 1e-7 degree units
+                let ts = s.u32();
+                let lim = if $lon { 180.0 } else { 90.0 };
+                vassume!(reference >= -lim && reference <= lim);
+                let (mask, half): (u32, i64) = if $lon { (0xfffff, 0x80000) } else { (0x7ffff, 0x40000) };
+                vassume!(w & mask == ((truth >> 7) as u32) & mask);
+                let r0 = (reference * 1e7) as i64;
+                vassume!(((truth as i64) - r0).abs() < (half - 2) * 128);
+                let words: [u32; 5] = if $lon { [0, 0, w, 0, 0] } else { [0, w, 0, 0, 0] };
+                let msg = packet(0x123456, 0x10, &cipher_words(&words, ts, 0x123456), [0, 0]);
+                let refs = if $lon { [45.0, reference] } else { [reference, 5.0] };
+                let r = Flarm::from_record(ts, &refs, &msg[..]);
+                vcover!(r.is_ok());
+                vassert!(r.is_ok(), "well-formed packet decodes");
+                if let Ok(f) = &r {
+                    let got = if $lon { f.longitude } else { f.latitude };
+                    let d = got * 1e7 - truth as f64;
+                    vcover!(truth < 0);
+                    vassert!(d >= -129.0 && d <= 129.0, "coordinate within one quantisation step of the true position");
+                }
+                core::mem::forget(r);
+            }
+        }
+    };
+}
+position!(position_lat, false);
+position!(position_lon, true);
 
 macro_rules! cipher_word {
     ($name:ident, $i:expr) => {
@@ -265,4 +289,4 @@ cipher_word!(cipher_word3, 3);
 cipher_word!(cipher_word4, 4);
 
 registry!(total_len26, total_len00, total_len03, total_len04, total_len19, total_len25, total_len27, total_len40,
-          fields, cipher_word0, cipher_word1, cipher_word2, cipher_word3, cipher_word4);
+          fields_discrete, position_lat, position_lon, cipher_word0, cipher_word1, cipher_word2, cipher_word3, cipher_word4);
